@@ -350,6 +350,11 @@ def install(ifconv=True, pred=True, merged_nmea=True, crc_ifconv=True):
     info['mods'] = {'rm': rm, 'rh': rh, 'rr': rr, 'sw': sw}
     _STATE.update(info)
     _STATE['tracked'] = _track_shared()
+    _STATE['bindings'] = _track_bindings()
+    owners = []
+    for o in {id(b[0]): b[0] for b in _STATE['bindings']}.values():
+        owners.append((o, set(vars(o))))
+    _STATE['names'] = owners
     sym.PATH_RESET_HOOKS[:] = [reset_shared]
     _STATE['done'] = True
     return _STATE
@@ -384,6 +389,26 @@ def _track_shared():
     return tracked
 
 
+def _track_bindings():
+    """every module-level and class-level binding of the pyrtcm package (after shims): a path that rebinds one has written shared state"""
+    import sys as _sys
+    out = []
+    skip = {'calc_crc24q', '__pvx'}
+    for name, mod in list(_sys.modules.items()):
+        if not (name == 'pyrtcm' or name.startswith('pyrtcm.')) or mod is None:
+            continue
+        for k, v in list(vars(mod).items()):
+            if k.startswith('__') or k in skip:
+                continue
+            out.append((mod, k, v, f"{name}.{k}"))
+            if isinstance(v, type) and v.__module__ == name:
+                for ck, cv in list(vars(v).items()):
+                    if ck.startswith('__') or ck in skip:
+                        continue
+                    out.append((v, ck, cv, f"{name}.{v.__name__}.{ck}"))
+    return out
+
+
 def reset_shared():
     """called at the start of every explored path: state a previous path left in shared containers must not leak into this one
     (the engine re-executes the code once per path).  Every such write is recorded: it is the C13 'shared state written' flag."""
@@ -399,6 +424,26 @@ def reset_shared():
         elif v is not None:
             SHARED_WRITES.add(qual)
             setattr(owner, k, None)
+    for owner, k, orig, qual in _STATE.get('bindings', ()):
+        try:
+            cur = owner.__dict__[k]
+        except KeyError:
+            cur = _MISSING
+        if cur is not orig:
+            SHARED_WRITES.add(qual)
+            setattr(owner, k, orig)
+    # bindings that did not exist at import time (a cache created lazily)
+    for owner, names in _STATE.get('names', ()):
+        for k in list(vars(owner)):
+            if k not in names and not k.startswith('__'):
+                SHARED_WRITES.add(f"{getattr(owner, '__name__', owner)}.{k} (new)")
+                try:
+                    delattr(owner, k)
+                except (AttributeError, TypeError):
+                    pass
+
+
+_MISSING = object()
 
 
 def set_crc(fn):
